@@ -19,7 +19,7 @@ checks = {
          "Every grid cell in every reached state satisfied the acceptance predicate of the statement.", "Trusted: harness/ref model.", "5/C03"),
  "C04": (H, "exploration", "grid oracle: Get of every offset incl. relative ones vs the model with errors.Is classification, on every reached state",
          "Every Get cell in every reached state matched the taxonomy.", "Trusted: harness/ref model.", "5/C04"),
- "C09": (H, "exploration", "reference-model monitor of key lookups with real FNV-1a collision keys",
+ "C09": (H, "exploration", "reference-model monitor of key lookups with real FNV-1a collision keys + typed key-flag monitor (typed wrapper with a codec that distinguishes an empty key from no key)",
          "GetByKey/OffsetByKey/ConsumeByKey agreed with the model for all pool/absent/colliding keys in every reached state.", "Trusted: harness/ref model; collision pairs re-verified each run.", "5/C09"),
  "C10": (H, "exploration", "reference-model monitor of time lookups, 1 µs sweep, plateau/straddle-biased histories",
          "GetByTime/OffsetByTime agreed with the model at every swept microsecond in every reached non-decreasing state.", "Trusted: harness/ref model.", "5/C10"),
